@@ -205,6 +205,12 @@ def run(ctx):
                 ctx.check(ok, "C05-c", b.key, "transport-internal error: closed with H3_INTERNAL_ERROR", "closed with %s" % [pa.vfmt(e[3][1]) for e in cl], "")
             else:
                 ctx.check(not cl, "C05-c", b.key, "peer/transport close: nothing to close", "close_connection called for %s" % v, "")
+        # both closing rows exist: an error h3 detected itself, and the transport adapter's own internal error (the connection is still
+        # up in both cases and the peer has to be told)
+        rows_ = {lab: [p for p in ps if lab in [t[2] for t in p.tests if t[3][0] == "discr"] and p.calls(CI + "close_connection")] for lab in ("Internal", "InternalError")}
+        ctx.check(bool(rows_["Internal"]) and bool(rows_["InternalError"]), "C05-c", b.key, "closes for an h3-detected error and for the adapter's internal error",
+                  "close_if_needed has closing paths for %s only: the error is stored and reported to every handle, but the transport connection "
+                  "is never closed with its code" % sorted(k for k, v_ in rows_.items() if v_), "")
         for cb, bb, t in prog.callers_of(CI + "close_if_needed"):
             o = fl.Flow(cb, prog).origin(t.args[1])
             ctx.check(from_cell(o, {}), "C05-c", cb.key, "close_if_needed(error from the cell)",
